@@ -89,6 +89,13 @@ def _frame_module_worker(job):
 
 
 PROP_INCLUDES = {"C13": ["C12"]}
+# single contracts of another property that a property's check also verifies (under that other property's tags): the
+# batch / history independence of the EC searches (C17) rests on their completeness for EVERY state of the table cached
+# on the curve - whatever an earlier, larger or smaller batch left there (seed C17-8: a key at an exact multiple of the
+# giant step was found only with a larger cached table)
+_EC = "paranoid_crypto/lib/ec_util.py::EcCurve."
+TARGET_INCLUDES = {"C17": [(_EC + "BatchDL#completeness", "C10"), (_EC + "ExtendedBatchDL#completeness", "C10"),
+                           (_EC + "BatchDLOfDifferences#completeness", "C10")]}
 
 
 def _gen_worker(job):
@@ -249,6 +256,8 @@ def main(argv=None):
   frame_targets = [t for t, c in C.REGISTRY.items() if c.assumed and not t.endswith(".__fields__") and
                    (prop in c.all_props() or prop in getattr(c, "frame_props", ()))]
   targets += [t for t in frame_targets if t not in targets]
+  included = {t: p for t, p in TARGET_INCLUDES.get(prop, []) if t in C.REGISTRY}
+  targets += [t for t in included if t not in targets]
   if args.only:
     targets = [t for t in targets if args.only in t]
   # lemmas: those declared for the property plus every lemma instantiated by one of its contracts (found after VC
@@ -284,6 +293,8 @@ def main(argv=None):
     t_gen0 = time.time()
     def gen_prop(t):      # a target that belongs to an included property is verified under THAT property's tags
       c0 = C.REGISTRY[t]
+      if t in included:
+        return included[t]
       if prop in c0.all_props() or prop in getattr(c0, "frame_props", ()):
         return prop
       for a in also:
